@@ -899,7 +899,17 @@ def replay(path):
         rows.append(row)
     ctx = Ctx("C13", "quick", 0)
     rej = ctx.trace_batch("trace/BuildTrace", "trace/BuildTrace.cfg", rows, label="replay")
-    bad = [r for r in rej if not r[1].startswith("UNDECIDED")]
+    bad = []
+    for r in rej:
+        if r[1].startswith("UNDECIDED"):
+            continue
+        stg = "minor" if "inor" in r[1] else "major" if "ajor" in r[1] else "cn" if "(cn)" in r[1] else "other"
+        known = any(f.get("status") == "known" and f["clause"] == r[1] and all({"stage": stg, "clause": r[1], "kind": "table"}.get(k) == v
+                                                                                 for k, v in f["fingerprint"].items()) for f in ctx._findings)
+        if known:
+            print(f"KNOWN-FINDING: property=C13 clause={r[1]} (see known_findings.d/C13.json)")
+        else:
+            bad.append(r)
     if bad:
         print(f"VIOLATION property=C13 replay={path}")
         print("  rejected:", bad)
